@@ -223,7 +223,7 @@ class Verifier:
         w = self.w
         ex = E.Exec(w, self, ch, self.timeout_ms)
         self.paths += 1
-        frame = dict(rel=c.rel, func=node, contract=c, var_types=dict(c.hints.get('var_types', {})))
+        frame = dict(rel=c.rel, func=node, contract=c, var_types=dict(c.hints.get('var_types', {})), ext_funcs=c.hints.get('ext_funcs'))
         ex.frames.append(frame)
         facts = []
         env = {}
@@ -236,6 +236,7 @@ class Verifier:
             env[p] = havoc(w.ty(c.params[p]), p, facts)
         for g, gty in c.ghost.items(): env[g] = havoc(w.ty(gty), g, facts)
         for s, sty in c.state.items(): env[s] = havoc(w.ty(sty), s, facts)
+        for pn, alias in c.hints.get('entry_values', {}).items(): env[alias] = env[pn]     # ghost names for parameter entry values
         self.cur_inputs = dict(env)
         ex.st.env = env
         try:
